@@ -25,6 +25,13 @@ CHECKS = {
              "reject over-long 16-bit lengths, for every VR, tag and length; the spec table is written from the standard.",
         note="Trusted: Kani/CBMC, std `Write for &mut [u8]`. Backtrace capture stubbed. Error values are forgotten, not dropped.",
     ),
+    "C07": dict(
+        technique="Verus contracts on the extracted StatefulDecoder readers with ghost byte counters on the Read/BasicDecode shims; sanitize_length against the three strategies",
+        text="Unbounded proof (every VR, every u32 length) that after each successful value/header/skip read the reported position equals the "
+             "bytes consumed and a value consumes exactly its declared length; the odd-length strategies are proved equal to the statement.",
+        note="std Read/io::copy and the basic decoders are assumed to consume what they document; parsed text content is abstracted; the "
+             "token loops of the data set readers that consume sanitize_length's result are not covered.",
+    ),
     "C08": dict(
         technique="Kani/CBMC contract harnesses inside the real module, loop-free over all 12-byte inputs and all dictionary answers",
         text="Complete proof that the adaptive decoder's first header equals the explicit (resp. implicit) decoder's result under "
@@ -73,7 +80,6 @@ NOT_APPLICABLE = {
     "C01": "check not built yet in this session (planned in DESIGN.md section 7); not claimed until its check runs",
     "C04": "check not built yet in this session (planned in DESIGN.md section 7); not claimed until its check runs",
     "C05": "check not built yet in this session (planned in DESIGN.md section 7); not claimed until its check runs",
-    "C07": "check not built yet in this session (planned in DESIGN.md section 7); not claimed until its check runs",
     "C09": "check not built yet in this session (planned in DESIGN.md section 7); not claimed until its check runs",
     "C11": "check not built yet in this session (planned in DESIGN.md section 7); not claimed until its check runs",
     "C12": "check not built yet in this session (planned in DESIGN.md section 7); not claimed until its check runs",
